@@ -75,7 +75,7 @@ var profiles = map[string]Profile{
 	// C02: one script text, many bindings -- whatever a request does to the cached, shared program
 	// (or to anything else that outlives it) meets the next requests using the same text
 	"spend-shared": {Name: "spend-shared", MaxClients: 5, MaxOps: 4, MaxGens: 1, MaxLedgers: 2, WKind: [5]int{14, 1, 1, 1, 0},
-		Tpls: []int{tplOrderedVars, tplOrderedVars, tplOrderedVars, tplVar}, WorldVarPct: 25, NoBuggify: true, BigCache: true,
+		Tpls: []int{tplOrderedVars, tplOrderedVars, tplOrderedVars, tplVar, tplMaxVars}, WorldVarPct: 25, NoBuggify: true, BigCache: true,
 		CancelBlockedPct: 5, IKPool: 2, RefPool: 2, TargetPool: 3, FundMax: 10, AmountMax: 12},
 	"spend-faults": {Name: "spend-faults", MaxClients: 5, MaxOps: 3, MaxGens: 3, MaxLedgers: 2, WKind: [5]int{12, 3, 2, 2, 0}, ClockPct: 20,
 		Tpls:     []int{tplLit, tplVar, tplMeta, tplOrdered, tplMax, tplOverdraftBounded, tplAll, tplBalance, tplTwoSends, tplOrderedVars, tplFallbackWorld, tplFallbackOverdraft, tplFeeVars},
@@ -107,7 +107,7 @@ var profiles = map[string]Profile{
 		Tpls:  []int{tplWorld, tplOverdraftUnbounded, tplSetAccountMeta, tplVar, tplLit, tplWorld, tplOverdraftUnbounded, tplOrderedVars, tplArith, tplPortionVar, tplMetaVar, tplAssetVar, tplSaveVar, tplRaw},
 		IKPct: 0, RefPct: 0, DryPct: 5, IKPool: 2, RefPool: 2, TargetPool: 3, FundMax: 100, AmountMax: 4},
 	"cache-shared": {Name: "cache-shared", MaxClients: 5, MaxOps: 4, MaxGens: 2, MaxLedgers: 2, WKind: [5]int{14, 2, 0, 1, 0},
-		Tpls: []int{tplOrderedVars, tplVar, tplArith, tplArith, tplPortionVar, tplMetaVar, tplAssetVar, tplAssetVar, tplSaveVar, tplOverdraftUnbounded, tplRaw, tplRaw}, WorldVarPct: 25, BigCache: true,
+		Tpls: []int{tplOrderedVars, tplVar, tplArith, tplArith, tplPortionVar, tplMetaVar, tplAssetVar, tplAssetVar, tplSaveVar, tplOverdraftUnbounded, tplRaw, tplRaw, tplMaxVars}, WorldVarPct: 25, BigCache: true,
 		IKPool: 2, RefPool: 2, TargetPool: 3, FundMax: 100, AmountMax: 4},
 	// C10
 	"revert": {Name: "revert", BigIDs: true, MaxClients: 5, MaxOps: 3, MaxGens: 3, MaxLedgers: 2, WKind: [5]int{4, 4, 10, 1, 0}, ClockPct: 10,
@@ -125,7 +125,7 @@ var profiles = map[string]Profile{
 		IKPct: 5, RefPct: 85, DryPct: 3, IKPool: 2, RefPool: 2, TargetPool: 2, FundMax: 8, AmountMax: 10},
 	// C13: every entry kind gets to be the last entry at a restart and the target of an IK retry
 	"audit": {Name: "audit", BigIDs: true, MaxClients: 3, MaxOps: 3, MaxGens: 4, MaxLedgers: 1, WKind: [5]int{4, 4, 3, 4, 4},
-		Tpls:  []int{tplWorld, tplLit, tplVar, tplSetAccountMeta, tplOverdraftUnbounded},
+		Tpls:  []int{tplWorld, tplLit, tplVar, tplSetAccountMeta, tplOverdraftUnbounded, tplMaxVars, tplMaxVars},
 		IKPct: 40, RefPct: 20, DryPct: 0, TSPct: 60, BigPct: 40, CrashPct: 70, WriteFailPct: 25, ReadFailPct: 10, ClockPct: 60, IKPool: 3, RefPool: 3, TargetPool: 4, CancelBlockedPct: 20, CancelPct: 6, FundMax: 30, AmountMax: 5},
 	// C16
 	"events": {Name: "events", BigIDs: true, CrashPct: 45, WriteFailPct: 20, ReadFailPct: 10, MaxClients: 5, MaxOps: 3, MaxGens: 3, MaxLedgers: 2, WKind: [5]int{5, 3, 5, 3, 3}, ClockPct: 25,
